@@ -70,7 +70,7 @@ class ServerRun:
         """
         rig = self.rig
         self.n += 1
-        s = self.last_sock = rig.sock(self.n)
+        s = self.last_sock = rig.sock(0)      # same peer address for every delivery; identity is the object
         exc0 = len(rig.wire.exc)
         cps = []
         for k, pieces in enumerate(pieces_per_msg):
@@ -252,8 +252,9 @@ class C13(Prop):
         'a mismatch seen on the shared rig is only reported if it reproduces with both deliveries on fresh rigs',
         'client side: responses that never produce a response event in one piece (204/304 with headers, until-close) are trivial',
     )
-    budget = {'quick': (230, 4), 'thorough': (3000, 16)}
+    budget = {'quick': (230, 4), 'thorough': (2000, 16)}
     max_samples = 4
+    shrink_lists = {'reqs': 1, 'resps': 1, 'h': 0, 'multi': 0, 'segs': 0, 'q': 0, 'sizes': 0, 'exts': 0, 'trailers': 0, 'fold': 0}
 
     def setup(self):
         driver.quiet_process()
@@ -359,6 +360,8 @@ class C13(Prop):
                 yield ('iso-byte@%d' % j, [G.split_at(d, [j, j + 1]) for d in datas])
 
     def execute(self, spec):
+        if not spec.get('reqs') and not spec.get('resps'):
+            return Result(True, classes=['empty'])
         with driver.captured_stderr():
             if spec['side'] == 'server':
                 return self._exec_server(spec)
@@ -434,10 +437,8 @@ class C13(Prop):
                     return Result(True, inconclusive=True, classes=classes + ['unconfirmed-mismatch'])
                 what = _describe_server(b2[bad2], g2[bad2])
                 clause = 'segmented-differs:' + _clause_server(b2[bad2], g2[bad2])
-                lens = [len(p) for p in pieces[bad2]]
-                return Result(False, clause, 'message %d of %d delivered as %s (%d reads%s): %s | bytes around first cut: %r' % (
-                    bad2 + 1, n, label, len(lens), '' if len(lens) > 6 else ' of sizes %r' % lens, what,
-                    _around(msgs[bad2]['bytes'], lens[0])), classes=classes)
+                return Result(False, clause, 'delivery %s, state after message %d of %d differs: %s | %s' % (
+                    label, bad2 + 1, n, what, _reads(pieces, msgs, bad2)), classes=classes)
             complete = all(len(base[k][0]) == k + 1 for k in range(n))
             nontrivial = complete and all(self._cuts_cover(m) for m in msgs)
             classes.append('deliveries:%s' % _bucket(n_deliv))
@@ -515,13 +516,11 @@ class C13(Prop):
                         run2.close()
                     if bad2 is None:
                         return Result(True, inconclusive=True, classes=classes + ['unconfirmed-mismatch'])
-                    lens = [len(p) for p in pieces[bad2]]
                     what = _describe_client(b2[bad2], g2[bad2])
                     field = 'events' if b2[bad2][0] != g2[bad2][0] else 'other'
                     return Result(False, 'client-segmented-differs:' + field,
-                                  '%s: response %d of %d delivered as %s (%d reads%s): %s | bytes around first cut: %r' % (
-                                      run.kind, bad2 + 1, len(msgs), label, len(lens), '' if len(lens) > 6 else ' of sizes %r' % lens,
-                                      what, _around(msgs[bad2]['bytes'], lens[0])), classes=classes)
+                                  '%s: delivery %s, state after response %d of %d differs: %s | %s' % (
+                                      run.kind, label, bad2 + 1, len(msgs), what, _reads(pieces, msgs, bad2)), classes=classes)
                 if Run is ProtoRun:
                     out_nontrivial = complete and all(self._cuts_cover(m) for m in msgs)
             finally:
@@ -546,8 +545,19 @@ def _clause_server(base, got):
     return 'quiescence'
 
 
-def _around(data, cut):
-    return (data[max(0, cut - 6):cut], data[cut:cut + 6])
+def _reads(pieces, msgs, upto):
+    """how messages 0..upto were cut: read sizes and the bytes around the first cut of each cut message"""
+    out = []
+    for k in range(upto + 1):
+        lens = [len(p) for p in pieces[k]]
+        if len(lens) == 1:
+            out.append('msg %d: one read of %d' % (k + 1, lens[0]))
+        else:
+            c = lens[0]
+            d = msgs[k]['bytes']
+            out.append('msg %d: %d reads%s, first cut %r|%r' % (
+                k + 1, len(lens), ' %r' % lens if len(lens) <= 6 else '', d[max(0, c - 6):c], d[c:c + 6]))
+    return '; '.join(out)
 
 
 def _bucket(n):
